@@ -83,6 +83,9 @@ def wellFormed (e : Opdata) : Bool :=
         wild.any (fun p => p.1 == c 'y' || p.1 == c 'w' || p.1 == c 'k' || p.1 == c 'l'))) &&
     (!(has f AUTO_SIZE || has f AUTO_NO32 || has f AUTO_REXW) ||
         wild.all (fun p => p.1 == c 'r' || p.1 == c 'v' || p.1 == c 'm' || isFixedGp p.1)) &&
+    -- AUTO_SIZE lets the operands be 16, 32 or 64 bits wide (66 prefix / nothing / REX.W): an immediate of one fixed width other than a byte
+    -- cannot be right for all of them (`cmp ax, imm32` after a 66 prefix is read as `cmp ax, imm16` + two stray bytes)
+    (!has f AUTO_SIZE || ps.all (fun p => !isImm p.1 || p.2 == c '*' || p.2 == c 'b')) &&
     -- at most one wildcard-sized immediate, and only next to a wildcard-sized operand (`im_size.unwrap()`)
     wimm.length ≤ 1 && (wimm.isEmpty || !wild.isEmpty) &&
     -- prefixes / opcode bytes: map-select byte, immediate opcode byte, short-argument byte
